@@ -449,6 +449,7 @@ Legal(kk, p, in) ==
     [] op = "tcancel" -> a1 \in 1..Len(kk.tim[p])
     [] op = "wevent" -> a1 \in 1..NUEv /\ Pending(kk, kk.uevh[a1])
     [] op = "evcancel" -> a1 \in 1..NUEv
+    [] op = "evresched" -> a1 \in 1..NUEv /\ Pending(kk, kk.uevh[a1])
     [] op = "pqcancel" -> a1 \in 1..Len(kk.pqall)
     [] op = "pqreprio" -> a1 \in 1..Len(kk.pqall) /\ \E x \in kk.pqs : x.h = kk.pqall[a1]
     [] op \in {"ccancel", "cremove"} -> a1 \in PIDs /\ a1 # p
@@ -557,6 +558,9 @@ Exec1(S, p, in) ==
                           IN SetK(Sb, [Sb.k EXCEPT !.ewait[a1] = <<>>])
                      ELSE S
          IN Snap(Emit(S1, DoEv(p, in, IF found THEN 1 ELSE 0, 0, t)))
+    [] op = "evresched" ->      \* cmb_event_reschedule: the same event (handle, priority, waiters) at the time now + a2
+         LET h == kk.uevh[a1] IN
+         Snap(Emit(SetK(S, [kk EXCEPT !.evq = {IF e.h = h THEN [e EXCEPT !.t = t + a2] ELSE e : e \in @}]), DoEv(p, in, 0, 0, t)))
     [] op = "rec" ->
          IF a2 = 1
            THEN LET S1 == SetK(S, [kk EXCEPT !.rec[a1] = TRUE, !.rect0[a1] = t]) IN
